@@ -106,6 +106,13 @@ func init() {
 		Scenarios: []scenSpec{{Name: "hs", Share: 1}},
 		LevelText: "the real client and server handshakes over the simulated kernel for both mapping back-ends (memfd with fd passing -> protocol 3, /dev/shm file -> protocol 2), unix and tcp transport, with the peer made to stop answering (process frozen, connection open) or to die right after its k-th socket operation, k swept over the exchange; oracle: both ends succeed with the lower common version and the same buffer/queue memory seen through both mappings (pattern written through one mapping and read through the other, queues cross-wired), or both live ends fail within InitializeTimeout + 2 s, and after Close nothing (descriptor, memfd, mapping, file) is left in the ledger of the simulated kernel.",
 		Rule: "seeded session configurations x mapping type x transport x InitializeTimeout x fault (freeze|kill of client|server after its k-th socket operation, k in 0..13) x fragmentation x schedules; non-trivial = more than 2 socket operations were executed; distinct = distinct schedule signatures among non-trivial runs"})
+	mgrRule := "seeded generation of a SessionManager configuration (1-3 sessions, pool capacity 1-4, rebuild interval 0.1-6 s), 1-4 caller threads doing GetStream/request/response/PutBack with keyed payloads (server-side close, unread responses, late unsolicited data, Close instead of PutBack), and a fault timeline (server killed/restarted, server-side sessions closed, hot restart with the new listener present, late or absent, repeated/stale epochs, SessionManager.Close) x seeded schedules; non-trivial = at least one use and more than 300 context switches; distinct = distinct schedule signatures among non-trivial runs"
+	reg(&propSpec{ID: "C15", Level: "exploration", QuickSec: 45, ThoroughSec: 1200, DesignRef: "6.C15", Scenarios: []scenSpec{{Name: "mgr", Share: 1}}, Rule: mgrRule,
+		LevelText: "the real SessionManager/streamPool against the real Listener on the simulated kernel: no stream is handed to two callers at once, a stream comes out of the pool without unread bytes and the response read on it belongs to the current use (payloads keyed by caller and use), and after everything settled each session's active-stream count equals what sits in its pool (callers hold nothing)."})
+	reg(&propSpec{ID: "C16", Level: "exploration", QuickSec: 45, ThoroughSec: 1200, DesignRef: "6.C16", Scenarios: []scenSpec{{Name: "mgr", Share: 1}}, Rule: mgrRule,
+		LevelText: "hot restart between two real Listener processes and a real SessionManager with client traffic running throughout: after the hand-over every pool holds a session of the announced epoch connected to the new server, listener and manager have left the hot-restart state within 12 s (virtual) of the last event whether the hand-over completed, failed or timed out, and uses issued afterwards succeed."})
+	reg(&propSpec{ID: "C17", Level: "exploration", QuickSec: 45, ThoroughSec: 1200, DesignRef: "6.C17", Scenarios: []scenSpec{{Name: "mgr", Share: 1}}, Rule: mgrRule,
+		LevelText: "server process killed and restarted, single server-side sessions closed, interleaved with hot restart and SessionManager.Close: calls made during the outage return (never hang), once a server is reachable every pool holds a live session again within rebuild interval + 12 s and uses succeed, and after Close the manager dials no more."})
 	reg(&propSpec{ID: "C13", Level: "exploration", QuickSec: 40, ThoroughSec: 1200, DesignRef: "6.C13",
 		Scenarios: []scenSpec{{Name: "fuzz", Share: 1}},
 		LevelText: "real sessions (client and server role, handshake and established phase) whose control connection receives generated wire-format events mutated by truncation, inconsistent lengths, bad magic/version/type, wrong direction or phase, duplication and garbage, delivered under seeded fragmentations and schedules; oracle: no panic or memory fault in any goroutine of the victim process, handshake returns within InitializeTimeout + slack, another session of the same process still completes a round trip, and a well-formed byte string has the same observable effect however it is cut into reads (differential between two victims in the same run).",
